@@ -193,10 +193,13 @@ fn c19(args: &Args, t0: Instant) -> i32 {
         // preemption bound <= 1 (their synchronous twins run at the full bounds in their own checks)
         let heavy = matches!(*name, "C02" | "C10" | "C11" | "C12" | "C15" | "C17");
         if quick && heavy {
-            for j in spec.jobs.iter_mut() {
+            // (the single-client programs of the barrier corpus keep their bound: wait() is written
+            // separately for the async flavour)
+            let keep_single = *name == "C10";
+            for j in spec.jobs.iter_mut().filter(|j| !(keep_single && j.program.threads.len() == 1)) {
                 j.bounds.iter_mut().for_each(|b| *b = (*b).min(1));
             }
-            spec.rule = format!("[preemption bounds capped at 1] {}", spec.rule);
+            spec.rule = format!("[preemption bounds capped at 1{}] {}", if keep_single { " for the multi-client programs" } else { "" }, spec.rule);
         }
         let mut o = spec_outcome(spec, args, t0, if quick { if heavy { 2 * budget } else { budget } } else { args.secs / 16 });
         o.property = format!("C19-async-{}", name);
